@@ -121,7 +121,7 @@ def gen_scenario(rng, multi):
     wrap_line = s.lineno(M)
     s.add(M, "  [${caller.body()}]")
     s.add(M, "</%def>")
-    kinds = ["expr", "expr-ml", "if", "for", "code", "code-one", "def", "call", "block", "filter", "expr-indented"]
+    kinds = ["expr", "expr-ml", "if", "for", "for-loop", "while", "code", "code-one", "def", "call", "block", "filter", "expr-indented"]
     if multi:
         kinds += ["include", "nsdef", "attr"]
     for _ in range(rng.randint(4, 9)):
@@ -145,6 +145,12 @@ def gen_scenario(rng, multi):
         elif kind == "for":
             s.sites[k] = {"chain": outer + [(M, ln)], "kind": kind}
             s.add(M, "% for i in boom(" + str(k) + ", [1]):\n  ${i}\n% endfor")
+        elif kind == "for-loop":
+            s.sites[k] = {"chain": outer + [(M, ln)], "kind": kind}
+            s.add(M, "% for j in boom(" + str(k) + ", [1, 2]):\n  ${loop.index}\n% endfor")
+        elif kind == "while":
+            s.sites[k] = {"chain": outer + [(M, ln)], "kind": kind}
+            s.add(M, "% while boom(" + str(k) + ", False):\n  never\n% endwhile")
         elif kind == "code":
             pre = rng.randint(0, 3)
             s.sites[k] = {"chain": outer + [(M, ln + 1 + pre)], "kind": kind}
@@ -232,6 +238,165 @@ class Recorder:
         P.start_source, P.writeline, P.write_indented_block, P.write_blanks, codegen._GenerateRenderMethod.write_metadata_struct = self.saved
 
 
+def _run_path(ctx, path, d, sources, sc, si, kinds_seen, req_tr, got_tr, req_sel, got_sel, req_full, got_full):
+    from mako import exceptions
+    from mako.lookup import TemplateLookup
+    from mako.template import Template, ModuleInfo
+    if True:
+        if path == "string":
+            lk = TemplateLookup()
+            for u, src in sources.items():
+                lk.put_string(u, src)
+            get = lambda: lk.get_template("/main.html")  # noqa
+            fname = lambda u: u  # noqa
+        elif path == "files":
+            lk = TemplateLookup(directories=[d])
+            get = lambda: lk.get_template("/main.html")  # noqa
+            fname = lambda u: os.path.join(d, u.lstrip("/"))  # noqa
+        elif path in ("moddir", "moddir-reload"):
+            lk = TemplateLookup(directories=[d], module_directory=os.path.join(d, "mods"))
+            get = lambda: lk.get_template("/main.html")  # noqa
+            fname = lambda u: os.path.join(d, u.lstrip("/"))  # noqa
+        elif path == "moddir-relative":
+            lk = TemplateLookup(directories=[d], module_directory="mods_rel")
+            get = lambda: lk.get_template("/main.html")  # noqa
+            fname = lambda u: os.path.join(d, u.lstrip("/"))  # noqa
+        elif path == "template-string":
+            t0 = Template(sources["/main.html"])
+            get = lambda: t0  # noqa
+            fname = lambda u: t0.uri  # noqa
+        elif path == "template-file":
+            t0 = Template(filename=os.path.join(d, "main.html"))
+            get = lambda: t0  # noqa
+            fname = lambda u: os.path.join(d, "main.html")  # noqa
+        elif path == "template-moddir-relative":
+            t0 = Template(filename=os.path.join(d, "main.html"), module_directory="mods1_rel")
+            get = lambda: t0  # noqa
+            fname = lambda u: os.path.join(d, "main.html")  # noqa
+        else:
+            t0 = Template(filename=os.path.join(d, "main.html"), module_directory=os.path.join(d, "mods1"))
+            get = lambda: t0  # noqa
+            fname = lambda u: os.path.join(d, "main.html")  # noqa
+        for k, site in sc.sites.items():
+            TARGET[0] = k
+            kinds_seen[site["kind"]] = kinds_seen.get(site["kind"], 0) + 1
+            ctx.evaluations += 1
+            ctx.nontrivial.add((si, path, k))
+            case = {"scenario": si, "path": path, "site": site["kind"], "expected_chain": [list(c) for c in site["chain"]],
+                    "templates": sources}
+            try:
+                get().render(boom=boom)
+                ctx.violation(case, "the planted exception did not propagate", tags=["c12.propagate"])
+                continue
+            except Boom as ex:
+                etype, evalue, etb = sys.exc_info()
+                tb = exceptions.RichTraceback()
+                raw = traceback.extract_tb(etb)
+                text_out = exceptions.text_error_template().render(error=evalue, traceback=etb)
+                html_out = exceptions.html_error_template().render_unicode(full=False, css=False, error=evalue, traceback=etb)
+            except Exception as ex:  # noqa
+                ctx.violation(dict(case, error=repr(ex)[:200]), "another exception replaced the planted one", tags=["c12.replaced." + site["kind"]])
+                continue
+            finally:
+                TARGET[0] = None
+            want_file, want_line = site["chain"][-1]
+            # plain frames unchanged; template frames carry their own template
+            ok = True
+            tframes = []
+            for r, rw in zip(tb.records, raw):
+                if tuple(r[:3]) != (rw.filename, rw.lineno, rw.name):
+                    ctx.violation(dict(case, record=repr(r[:4]), raw=repr(tuple(rw))), "a traceback record's own fields were altered", tags=["c12.record-altered"])
+                    ok = False
+                    break
+                if r[4] is not None:
+                    u = next((u for u in sources if fname(u) == r[4]), None)
+                    if u is None or r[7] != sources[u] or (r[5] and r[6] != sources[u].split("\n")[r[5] - 1]):
+                        ctx.violation(dict(case, record=repr(r[:7])), "a template frame is not reported with its own template's filename, source and line text",
+                                      tags=["c12.frame-template." + site["kind"]])
+                        ok = False
+                        break
+                    tframes.append((u, r[5]))
+                elif "mako" not in r[0] and r[0] != __file__ and not r[0].startswith("<"):
+                    pass
+            if not ok:
+                continue
+            if not tframes or tframes[-1] != (want_file, want_line):
+                ctx.violation(dict(case, template_frames=repr(tframes)), "the innermost template frame is not reported at the site's template line",
+                              tags=["c12.innermost." + site["kind"]])
+                continue
+            if tb.lineno != want_line or tb.source != sources[want_file]:
+                ctx.violation(dict(case, lineno=tb.lineno), "RichTraceback.lineno/source is not the site's line in its own template", tags=["c12.lineno." + site["kind"]])
+                continue
+            # the chain of template frames (consecutive duplicates merged)
+            merged = []
+            for f in tframes:
+                if not merged or merged[-1] != f:
+                    merged.append(f)
+            chain = [tuple(c) for c in site["chain"]]
+            if merged != chain:
+                # the two known shapes: a def stub frame at line 0; the call frame of a named block at an earlier construct's line
+                nozero = []
+                for f in tframes:
+                    if f[1] != 0 and (not nozero or nozero[-1] != f):
+                        nozero.append(f)
+                if nozero == chain and site["kind"] in ("def", "call"):
+                    tag = "c12.chain." + site["kind"]
+                elif site["kind"] == "block" and len(merged) == len(chain) and merged[:-2] == chain[:-2] and merged[-1] == chain[-1] \
+                        and merged[-2][0] == chain[-2][0] and merged[-2][1] < chain[-2][1]:
+                    tag = "c12.chain.block"
+                else:
+                    tag = "c12.chain-other." + site["kind"]
+                ctx.violation(dict(case, template_frames=repr(merged)), "an outer template frame is not reported at the line its construct begins", tags=[tag])
+            needle = 'File "%s", line %d, in' % (fname(want_file), want_line)
+            if needle not in text_out:
+                ctx.violation(dict(case, text=text_out[-600:]), "the text error template does not show the site's template and line", tags=["c12.text-template"])
+            hneedle = "%s, line %d:" % (fname(want_file), want_line)
+            if hneedle not in html_out:
+                ctx.violation(dict(case, html=html_out[:600]), "the HTML error template does not show the site's template and line", tags=["c12.html-template"])
+            # (3) the model translates every template frame from that module's own line map
+            for r in tb.records:
+                if r[4] is None:
+                    continue
+                info = __import__("mako.template").template._get_module_info(r[0])
+                lm = ModuleInfo.get_module_source_metadata(info.code)["line_map"]
+                nl = len(r[7].split("\n"))
+                req_tr.append("trans|%s|%d|%d" % (kv(lm), nl, r[1]))
+                ix = "-" if r[6] is None else str((r[5] - 1) % nl)
+                got_tr.append((case, "tmpl %d %d %s" % (r[1], r[5], ix)))
+            req_sel.append("select|" + ";".join(("p" if r[4] is None else "t %d" % r[5]) for r in tb.records))
+            got_sel.append((case, str(tb.lineno)))
+        # format_exceptions on this path
+        if path in ("string", "template-string") and sc.sites:
+            k = next(iter(sc.sites))
+            TARGET[0] = k
+            try:
+                if path == "string":
+                    lk2 = TemplateLookup(format_exceptions=True)
+                    for u, src in sources.items():
+                        lk2.put_string(u, src)
+                    out = lk2.get_template("/main.html").render_unicode(boom=boom)
+                    f2 = sc.sites[k]["chain"][-1][0]
+                else:
+                    t2 = Template(sources["/main.html"], format_exceptions=True)
+                    out = t2.render_unicode(boom=boom)
+                    f2 = t2.uri
+                if "%s, line %d:" % (f2, sc.sites[k]["chain"][-1][1]) not in out:
+                    ctx.violation({"templates": sources, "site": sc.sites[k]["kind"], "page": out[:500]}, "format_exceptions page does not show the site's template and line",
+                                  tags=["c12.format-exceptions"])
+            except Exception as ex:  # noqa
+                ctx.violation({"templates": sources, "error": repr(ex)[:200]}, "format_exceptions raised", tags=["c12.format-exceptions"])
+            finally:
+                TARGET[0] = None
+            ctx.evaluations += 1
+        # (2) the dense map of the real modules
+        if path in ("string", "template-string"):
+            t = get()
+            md = ModuleInfo.get_module_source_metadata(t.code, full_line_map=True)
+            req_full.append("full|" + kv(md["line_map"]))
+            got_full.append((kv(md["line_map"]), " ".join(map(str, md["full_line_map"]))))
+
+
+
 def kv(d):
     return ",".join("%d:%d" % (k, v) for k, v in d.items())
 
@@ -265,156 +430,21 @@ def run(ctx):
                 req_ops.append("ops|" + ",".join(rec.log))
                 # the M op is logged before the sentinel entry and the metadata lines are written: the model run covers them too
                 got_ops.append((u, src, "%d|%s" % (rec.final.lineno, kv(rec.final.source_map))))
-            paths = ["string", "files", "moddir", "moddir-reload"] if multi else ["template-string", "template-file", "template-moddir"]
+            paths = ["string", "files", "moddir", "moddir-reload", "moddir-relative"] if multi else ["template-string", "template-file", "template-moddir", "template-moddir-relative"]
             d = os.path.join(workroot, "s%d" % si)
             os.makedirs(d)
             for u, src in sources.items():
                 with open(os.path.join(d, u.lstrip("/")), "w", encoding="utf-8", newline="") as f:
                     f.write(src)
             for path in paths:
-                if path == "string":
-                    lk = TemplateLookup()
-                    for u, src in sources.items():
-                        lk.put_string(u, src)
-                    get = lambda: lk.get_template("/main.html")  # noqa
-                    fname = lambda u: u  # noqa
-                elif path == "files":
-                    lk = TemplateLookup(directories=[d])
-                    get = lambda: lk.get_template("/main.html")  # noqa
-                    fname = lambda u: os.path.join(d, u.lstrip("/"))  # noqa
-                elif path in ("moddir", "moddir-reload"):
-                    lk = TemplateLookup(directories=[d], module_directory=os.path.join(d, "mods"))
-                    get = lambda: lk.get_template("/main.html")  # noqa
-                    fname = lambda u: os.path.join(d, u.lstrip("/"))  # noqa
-                elif path == "template-string":
-                    t0 = Template(sources["/main.html"])
-                    get = lambda: t0  # noqa
-                    fname = lambda u: t0.uri  # noqa
-                elif path == "template-file":
-                    t0 = Template(filename=os.path.join(d, "main.html"))
-                    get = lambda: t0  # noqa
-                    fname = lambda u: os.path.join(d, "main.html")  # noqa
-                else:
-                    t0 = Template(filename=os.path.join(d, "main.html"), module_directory=os.path.join(d, "mods1"))
-                    get = lambda: t0  # noqa
-                    fname = lambda u: os.path.join(d, "main.html")  # noqa
-                for k, site in sc.sites.items():
-                    TARGET[0] = k
-                    kinds_seen[site["kind"]] = kinds_seen.get(site["kind"], 0) + 1
-                    ctx.evaluations += 1
-                    ctx.nontrivial.add((si, path, k))
-                    case = {"scenario": si, "path": path, "site": site["kind"], "expected_chain": [list(c) for c in site["chain"]],
-                            "templates": sources}
-                    try:
-                        get().render(boom=boom)
-                        ctx.violation(case, "the planted exception did not propagate", tags=["c12.propagate"])
-                        continue
-                    except Boom as ex:
-                        etype, evalue, etb = sys.exc_info()
-                        tb = exceptions.RichTraceback()
-                        raw = traceback.extract_tb(etb)
-                        text_out = exceptions.text_error_template().render(error=evalue, traceback=etb)
-                        html_out = exceptions.html_error_template().render_unicode(full=False, css=False, error=evalue, traceback=etb)
-                    except Exception as ex:  # noqa
-                        ctx.violation(dict(case, error=repr(ex)[:200]), "another exception replaced the planted one", tags=["c12.replaced." + site["kind"]])
-                        continue
-                    finally:
-                        TARGET[0] = None
-                    want_file, want_line = site["chain"][-1]
-                    # plain frames unchanged; template frames carry their own template
-                    ok = True
-                    tframes = []
-                    for r, rw in zip(tb.records, raw):
-                        if tuple(r[:3]) != (rw.filename, rw.lineno, rw.name):
-                            ctx.violation(dict(case, record=repr(r[:4]), raw=repr(tuple(rw))), "a traceback record's own fields were altered", tags=["c12.record-altered"])
-                            ok = False
-                            break
-                        if r[4] is not None:
-                            u = next((u for u in sources if fname(u) == r[4]), None)
-                            if u is None or r[7] != sources[u] or (r[5] and r[6] != sources[u].split("\n")[r[5] - 1]):
-                                ctx.violation(dict(case, record=repr(r[:7])), "a template frame is not reported with its own template's filename, source and line text",
-                                              tags=["c12.frame-template." + site["kind"]])
-                                ok = False
-                                break
-                            tframes.append((u, r[5]))
-                        elif "mako" not in r[0] and r[0] != __file__ and not r[0].startswith("<"):
-                            pass
-                    if not ok:
-                        continue
-                    if not tframes or tframes[-1] != (want_file, want_line):
-                        ctx.violation(dict(case, template_frames=repr(tframes)), "the innermost template frame is not reported at the site's template line",
-                                      tags=["c12.innermost." + site["kind"]])
-                        continue
-                    if tb.lineno != want_line or tb.source != sources[want_file]:
-                        ctx.violation(dict(case, lineno=tb.lineno), "RichTraceback.lineno/source is not the site's line in its own template", tags=["c12.lineno." + site["kind"]])
-                        continue
-                    # the chain of template frames (consecutive duplicates merged)
-                    merged = []
-                    for f in tframes:
-                        if not merged or merged[-1] != f:
-                            merged.append(f)
-                    chain = [tuple(c) for c in site["chain"]]
-                    if merged != chain:
-                        # the two known shapes: a def stub frame at line 0; the call frame of a named block at an earlier construct's line
-                        nozero = []
-                        for f in tframes:
-                            if f[1] != 0 and (not nozero or nozero[-1] != f):
-                                nozero.append(f)
-                        if nozero == chain and site["kind"] in ("def", "call"):
-                            tag = "c12.chain." + site["kind"]
-                        elif site["kind"] == "block" and len(merged) == len(chain) and merged[:-2] == chain[:-2] and merged[-1] == chain[-1] \
-                                and merged[-2][0] == chain[-2][0] and merged[-2][1] < chain[-2][1]:
-                            tag = "c12.chain.block"
-                        else:
-                            tag = "c12.chain-other." + site["kind"]
-                        ctx.violation(dict(case, template_frames=repr(merged)), "an outer template frame is not reported at the line its construct begins", tags=[tag])
-                    needle = 'File "%s", line %d, in' % (fname(want_file), want_line)
-                    if needle not in text_out:
-                        ctx.violation(dict(case, text=text_out[-600:]), "the text error template does not show the site's template and line", tags=["c12.text-template"])
-                    hneedle = "%s, line %d:" % (fname(want_file), want_line)
-                    if hneedle not in html_out:
-                        ctx.violation(dict(case, html=html_out[:600]), "the HTML error template does not show the site's template and line", tags=["c12.html-template"])
-                    # (3) the model translates every template frame from that module's own line map
-                    for r in tb.records:
-                        if r[4] is None:
-                            continue
-                        info = __import__("mako.template").template._get_module_info(r[0])
-                        lm = ModuleInfo.get_module_source_metadata(info.code)["line_map"]
-                        nl = len(r[7].split("\n"))
-                        req_tr.append("trans|%s|%d|%d" % (kv(lm), nl, r[1]))
-                        ix = "-" if r[6] is None else str((r[5] - 1) % nl)
-                        got_tr.append((case, "tmpl %d %d %s" % (r[1], r[5], ix)))
-                    req_sel.append("select|" + ";".join(("p" if r[4] is None else "t %d" % r[5]) for r in tb.records))
-                    got_sel.append((case, str(tb.lineno)))
-                # format_exceptions on this path
-                if path in ("string", "template-string") and sc.sites:
-                    k = next(iter(sc.sites))
-                    TARGET[0] = k
-                    try:
-                        if path == "string":
-                            lk2 = TemplateLookup(format_exceptions=True)
-                            for u, src in sources.items():
-                                lk2.put_string(u, src)
-                            out = lk2.get_template("/main.html").render_unicode(boom=boom)
-                            f2 = sc.sites[k]["chain"][-1][0]
-                        else:
-                            t2 = Template(sources["/main.html"], format_exceptions=True)
-                            out = t2.render_unicode(boom=boom)
-                            f2 = t2.uri
-                        if "%s, line %d:" % (f2, sc.sites[k]["chain"][-1][1]) not in out:
-                            ctx.violation({"templates": sources, "site": sc.sites[k]["kind"], "page": out[:500]}, "format_exceptions page does not show the site's template and line",
-                                          tags=["c12.format-exceptions"])
-                    except Exception as ex:  # noqa
-                        ctx.violation({"templates": sources, "error": repr(ex)[:200]}, "format_exceptions raised", tags=["c12.format-exceptions"])
-                    finally:
-                        TARGET[0] = None
-                    ctx.evaluations += 1
-                # (2) the dense map of the real modules
-                if path in ("string", "template-string"):
-                    t = get()
-                    md = ModuleInfo.get_module_source_metadata(t.code, full_line_map=True)
-                    req_full.append("full|" + kv(md["line_map"]))
-                    got_full.append((kv(md["line_map"]), " ".join(map(str, md["full_line_map"]))))
+                cwd = os.getcwd()
+                if path.endswith("-relative"):
+                    os.chdir(d)
+                try:
+                    _run_path(ctx, path, d, sources, sc, si, kinds_seen, req_tr, got_tr, req_sel, got_sel, req_full, got_full)
+                finally:
+                    os.chdir(cwd)
+            continue
         # random sparse maps
         for _ in range(300 if tier == "quick" else 5000):
             keys = sorted(rng.sample(range(1, 60), rng.randint(1, 8)))
@@ -466,8 +496,10 @@ def _warnings_part(ctx, workroot, tier):
     os.makedirs(d)
     n = 0
     for name, src, line, needle in cases:
-        for path in ["string", "file", "lookup", "moddir"]:
+        for path in ["string", "file", "lookup", "moddir", "moddir-stale-magic"]:
             for action in ["always", "default", "once"]:
+                if path == "moddir-stale-magic" and name == "module":
+                    continue            # the stale module's own top-level code runs (and warns) when it is loaded: two executions, two warnings
                 n += 1
                 fn = os.path.join(d, "%s_%s_%s.html" % (name, path, action))
                 with open(fn, "w") as f:
@@ -489,6 +521,24 @@ def _warnings_part(ctx, workroot, tier):
                             want_fn = fn
                         elif path == "lookup":
                             t = TemplateLookup(directories=[d]).get_template(os.path.basename(fn))
+                            want_fn = fn
+                        elif path == "moddir-stale-magic":
+                            # a module directory written by another release: the module loads silently from its bytecode, its magic
+                            # number differs, and the template is compiled again
+                            import py_compile
+                            md = os.path.join(d, "ms_%s_%s" % (name, action))
+                            with warnings.catch_warnings():
+                                warnings.simplefilter("ignore")
+                                t0 = TemplateLookup(directories=[d], module_directory=md).get_template(os.path.basename(fn))
+                                mf = t0.module.__file__
+                                with open(mf) as f_:
+                                    msrc = f_.read()
+                                with open(mf, "w") as f_:
+                                    f_.write(re.sub(r"_magic_number = \d+", "_magic_number = 1", msrc))
+                                py_compile.compile(mf)
+                            del shown[:]
+                            warnings.showwarning = lambda message, category, filename, lineno, file=None, line=None: shown.append((str(message), filename, lineno))
+                            t = TemplateLookup(directories=[d], module_directory=md).get_template(os.path.basename(fn))
                             want_fn = fn
                         else:
                             t = TemplateLookup(directories=[d], module_directory=os.path.join(d, "m_%s" % action)).get_template(os.path.basename(fn))
